@@ -33,6 +33,11 @@ MISSED_FIRST = {
  "C17b-3": "needs history A rendered into an empty rectangle with DrawOp=Src and B rendered without re-arming DrawOp, on a non-blank image; C17's pixel pairs now model the documented one-shot DrawOp across the two decodes, over a patterned background, a quarter of them with an empty rectangle for A",
  "C18b-1": "needs a caller's palette with entries that are not valid premultiplied colours handed to Color.Resolve by pointer; C18's helper tasks now resolve against shared raw palettes, which are part of the shared-input hash",
  "C19b-2": "needs an Encoder reused after its selectors were moved (C17 and C07 caught it); C19 now runs half of its cases on destinations with a past (dirtyDestination)",
+ "C10c-3": "needs more than 16 consecutive arcs in one path (C01 caught it); C10's long-random histories now contain runs of 15..65 calls of one drawing verb followed by a decode check",
+ "C03c-1": "needs the largest palette (64 x 4 bytes) cut short with the stream ending right there (C13 caught the same idea); the shared metadata assembler now produces truncated palettes with consistent chunk lengths and C03 has metadata-only streams",
+ "C02c-3": "was caught only as non-termination after 36 minutes (millions of curve segments per arc); the recording rasterizer now enforces the linear-activity bound online (4*len(input)+8 calls) and the decode is stopped where it is crossed: 23 s",
+ "C07c-1": "needs a number register holding a negative integer <= -65; C07's exact family now also draws integers of either sign, multiples of 1/64 and 4-byte floats for number registers, not only values in [0,1]",
+ "C04c-3": "needs a one-stop gradient after a gradient with two or more stops on the same Renderer; paths with NSTOPS < 2 were not judged at all, now the property's own clause is applied to them (activity with a fully transparent paint is a violation) and C17's programs contain such gradients after histories that painted a real one",
  "C20-2": "SetTransform was called once with literals; C20 now configures the generator twice from a caller-held slice and checks that the slice is unchanged",
 }
 
